@@ -30,6 +30,7 @@ import (
 	"github.com/nuetzliches/hookaido/internal/httpheader"
 	"github.com/nuetzliches/hookaido/internal/queue"
 	"github.com/nuetzliches/hookaido/internal/secrets"
+	"github.com/nuetzliches/hookaido/internal/verifhook"
 )
 
 const (
@@ -8362,23 +8363,29 @@ func writeFileAtomic(path string, data []byte) error {
 		}
 	}()
 
+	verifhook.Point("mcp.wfa.created")
 	if err := tmp.Chmod(mode); err != nil {
 		return err
 	}
+	verifhook.Point("mcp.wfa.chmod")
 	if _, err := tmp.Write(data); err != nil {
 		return err
 	}
+	verifhook.Point("mcp.wfa.written")
 	if err := tmp.Sync(); err != nil {
 		return err
 	}
+	verifhook.Point("mcp.wfa.synced")
 	if err := tmp.Close(); err != nil {
 		return err
 	}
+	verifhook.Point("mcp.wfa.closed")
 
 	if err := os.Rename(tmpPath, path); err != nil {
 		return err
 	}
 	keepTemp = true
+	verifhook.Point("mcp.wfa.renamed")
 
 	if err := syncDir(dir); err != nil {
 		return err
